@@ -1252,6 +1252,9 @@ def term_to_ineq(tms):
     """Convert a list inequalities into a tableau."""
     vs = dict()
     i = 0
+    # the internal names must not clash with the names of the given variables: the proof is
+    # translated back by replacing one internal variable after the other
+    taken = set(v.name for tm in tms for v in tm.get_vars())
     tableau = []
     new_tms = [] # store the HOL form of standard tableau
     for tm in tms:
@@ -1259,6 +1262,8 @@ def term_to_ineq(tms):
         line = []
         for coeff, v in summands:
             if v not in vs:
+                while "x_" + str(i) in taken:
+                    i += 1
                 new_var = "x_" + str(i)
                 i += 1
                 vs[v] = new_var
